@@ -145,6 +145,14 @@ chk('C15',
     'bounded-exhaustive enumeration of stereo molecules x cut placements x fragment orders on the real resolver',
     'DESIGN.md section 4 C15')
 
+chk('C08',
+    '(1) Fragment texts from the C13 token-level generator (atomistic and coarse; all four descriptor kinds, labels, descriptor orders 0-3, up to 3 descriptors per atom in every order, leading '
+    'descriptors, rings, charged and two-letter atoms, an aromatic unit), two-fragment sets, all connected labelled 5-node graphs with >=3 ring edges as coarse fragments and a list of polycyclic SMILES: '
+    'every text the reader accepts is read, written and read again and compared up to isomorphism incl. the ordered descriptor list per atom. (2) Complete strings with uniquely labelled descriptor pairs '
+    '(C01 cut / rendering leaves, C06 multi-level strings) are written from an unresolved resolver and resolved again; the molecule must equal the original resolution.',
+    COMMON_NOTE, 'bounded-exhaustive enumeration of fragment sets / complete strings through the real writer and reader (round-trip oracle)',
+    'DESIGN.md section 4 C08')
+
 NOT_YET = {}
 
 def main():
